@@ -205,3 +205,59 @@ Lemma unguarded_faults :
   w_faults (wrun false [WPrepare 7; WRegister 7; WIn 7 true; WPrepare 7; WOut 7 true]) = 1
   /\ w_faults (wrun true [WPrepare 7; WRegister 7; WIn 7 true; WPrepare 7; WOut 7 true]) = 0.
 Proof. vm_compute. split; reflexivity. Qed.
+
+(* ---- a connection only ever receives what was queued for it; nothing stays queued for a closed number ---- *)
+Definition qinv (s : qstate) : Prop :=
+  (forall fd t, In t (q_queue s fd) -> t = q_gen s fd /\ q_open s fd = true)
+  /\ (forall d, In d (q_deliv s) -> fst d = snd d).
+
+Lemma qupd_same {A} (f : nat -> A) k v : qupd f k v k = v.
+Proof. unfold qupd. rewrite Nat.eqb_refl. reflexivity. Qed.
+Lemma qupd_other {A} (f : nat -> A) k v x : x <> k -> qupd f k v x = f x.
+Proof. intros H. unfold qupd. destruct (Nat.eqb_spec x k); [contradiction|reflexivity]. Qed.
+
+Lemma qstep_inv s e : qinv s -> qinv (qstep true s e).
+Proof.
+  intros [Hq Hd]. destruct e as [fd|fd|fd|fd]; cbn [qstep]; destruct (q_open s fd) eqn:Ho; try (split; assumption).
+  - (* accept *) split; [|exact Hd]. cbn [q_queue q_gen q_open]. intros g t Ht.
+    destruct (Nat.eq_dec g fd) as [->|Hn].
+    + destruct (Hq fd t Ht) as [_ H]. congruence.
+    + rewrite !qupd_other by exact Hn. apply Hq. exact Ht.
+  - (* queue *) split; [|exact Hd]. cbn [q_queue q_gen q_open]. intros g t Ht.
+    destruct (Nat.eq_dec g fd) as [->|Hn].
+    + rewrite qupd_same in Ht. apply in_app_or in Ht. destruct Ht as [Ht|[<-|[]]]; [apply Hq; exact Ht|]. split; [reflexivity|exact Ho].
+    + rewrite qupd_other in Ht by exact Hn. apply Hq. exact Ht.
+  - (* flush *) split; cbn [q_queue q_gen q_open q_deliv].
+    + intros g t Ht. destruct (Nat.eq_dec g fd) as [->|Hn]; [rewrite qupd_same in Ht; destruct Ht|].
+      rewrite qupd_other in Ht by exact Hn. apply Hq. exact Ht.
+    + intros d Hin. apply in_app_or in Hin. destruct Hin as [Hin|Hin]; [apply Hd; exact Hin|].
+      apply in_map_iff in Hin. destruct Hin as [t [<- Ht]]. cbn [fst snd]. symmetry. apply (Hq fd t Ht).
+  - (* close *) split; [|exact Hd]. cbn [q_queue q_gen q_open]. intros g t Ht.
+    destruct (Nat.eq_dec g fd) as [->|Hn]; [rewrite qupd_same in Ht; destruct Ht|].
+    rewrite !qupd_other in * by exact Hn. apply Hq. exact Ht.
+Qed.
+
+Lemma qrun_inv h : qinv (qrun true h).
+Proof.
+  unfold qrun. assert (G : forall s, qinv s -> qinv (fold_left (qstep true) h s)).
+  { induction h as [|e h IH]; intros s H; [exact H|]. cbn [fold_left]. apply IH, qstep_inv, H. }
+  apply G. split; [intros fd t []|intros d []].
+Qed.
+
+Lemma q_never_stale h : q_stale (qrun true h) = 0.
+Proof.
+  destruct (qrun_inv h) as [_ Hd]. unfold q_stale. induction (q_deliv (qrun true h)) as [|d l IH]; [reflexivity|].
+  cbn [filter]. rewrite (Hd d (or_introl eq_refl)), Nat.eqb_refl. cbn [negb]. apply IH. intros x Hx. apply Hd. right. exact Hx.
+Qed.
+
+Lemma q_closed_number_has_no_queue h fd : q_open (qrun true h) fd = false -> q_queue (qrun true h) fd = [].
+Proof.
+  intros Hc. destruct (qrun_inv h) as [Hq _]. destruct (q_queue (qrun true h) fd) as [|t l] eqn:E; [reflexivity|].
+  destruct (Hq fd t) as [_ H]; [rewrite E; left; reflexivity|congruence].
+Qed.
+
+(* without the erase in removePeer (the seeded change C08b): what a connection left unsent reaches its successor *)
+Lemma q_refuted_without_erase :
+  q_stale (qrun false [QAccept 7; QQueue 7; QClose 7; QAccept 7; QQueue 7; QFlush 7]) = 1
+  /\ q_deliv (qrun false [QAccept 7; QQueue 7; QClose 7; QAccept 7; QQueue 7; QFlush 7]) = [(2, 1); (2, 2)].
+Proof. vm_compute. split; reflexivity. Qed.
